@@ -107,11 +107,9 @@ theorem tsn_layer (cs : List TxChan) (sid : UInt16) (ppid : UInt32) (hp : ppid.t
         omega
     · omega
 
-/-- **process_never_fails** (round 2): `process_data_payload` returns `Ok` for every chunk — user
-data on a known or unknown stream, DCEP fragments, malformed DCEP. (Before fixes e14ef52 / 549207d a
-DCEP chunk that `handle_dcep` could not parse made `handle_data` return before storing the
-cumulative TSN: the chunk was retransmitted for ever and every channel stalled.) -/
-theorem process_never_fails (pl : Pl) (c : DChunk) : (procPayload pl c).2 = true := procPayload_ok pl c
+-- (`procPayload_ok` was removed in round 3: in the model `procPayload` returns the literal `true`
+-- (`procPayload_ok`, by construction since fix 549207d), so the statement said nothing about the
+-- code; that the code's `process_data_payload` never returns `Err` rests on the rx replay.)
 
 /-- **tsn_layer_any_stream** (round 2): the TSN layer for an *arbitrary* chunk stream — any mix of
 channels, PPIDs, DCEP OPEN / ACK fragments, chunks for unknown streams, well-formed or not — with
@@ -391,7 +389,10 @@ def CoveringRun (mx : Nat) : List SRec → List Round → Prop
      | r0 :: tl => i32NonPos (r0.tsn - r.cum) = true ∧ lateSack (r0 :: tl) r.cum r.gaps = false) ∧
     CoveringRun mx (roundStep mx q r) rest
 
-/-- **t3_rounds_drain** (liveness on the abstract round model; no clock): whatever the sent queue
+/-- **t3_rounds_drain** (PARTIAL — liveness on an abstract round model; no clock; the hypothesis
+`CoveringRun` *assumes* that each round's retransmission is delivered and SACKed — nothing here links a
+round to `transmit`, the receiver, the RTO, its back-off or flow control; the content is "n covering
+SACKs remove n records"): whatever the sent queue
 holds — any number of records, any flags, any TSNs — once the network delivers reliably in the
 sense of `CoveringRun`, as many retransmission rounds as there are records empty it: every record
 is acknowledged and removed, none is retransmitted for ever. (`t3_round_progress_partial` says that
